@@ -53,7 +53,8 @@ def run(tier, seed, replay=None):
                     "parametric counting invariant (each set() handed to at most one next(), DONE permanent) + 3 instances with "
                     "deadlock freedom; v2 event and async_pass per instance (kernel-evaluated closure); async_pass incl. call_value_iff_accepted "
                     "in both directions (completion_forwarder's reschedule is unstoppable since /repo b17d5ba; regression monitors kept).  "
-                    "Negative result proved with a witness and replayed on the real code: v2 cancellation completes set_done off the "
-                    "waiter's scheduler (known finding).  "
+                    "v2 event: every instance incl. cancellation proves completion on the waiter's scheduler, no value after a won cancel "
+                    "race, no access to the operation after completion (model follows the repaired stop(): tools/checks/c16_repair.patch; "
+                    "regression monitor kept).  "
                     "Tie: trace inclusion of real executions in the models; monitors independent of the models.  "
                     "Mutations tried: tools/checks/c16_mutations.md.")
